@@ -247,8 +247,11 @@ func (e *h2Env) serveUpstream(key string, rawConn, c net.Conn) {
 			}
 			c.Write(raw[:n])
 			if sc, ok := rawConn.(*simnet.Conn); ok {
-				sc.Reset()
+				// the upstream dies after these bytes have left it
+				sc.ResetAfterDelivery()
 			}
+			// do not close: closing would race the reset
+			<-e.stop
 			return
 		}
 		if err := h2WriteChunks(c, raw, rs.Chunks); err != nil {
